@@ -27,6 +27,14 @@ SCRATCH = Path("/var/tmp/verif-scratch")
 
 G = {"fault": None, "model_calls": 0, "loss_calls": 0}
 HALTON_CLASS = 9
+# token sampler classes: class number = position of the letter ('?' = 9 is the real HaltonSampler).  The generators of the
+# family draw from the first six; the further ones exist for line-ups with more than ten classes (round 4, C18).
+TOK_LETTERS = "ABCDEFGHI?JKLMNOP"
+
+
+def tok_class_index(name):
+    """Class number of a sampler class name (TokA..TokP, HaltonSampler)."""
+    return TOK_LETTERS.index(name[3]) if name.startswith("Tok") else HALTON_CLASS
 
 
 class TokFault(Exception):
@@ -88,7 +96,11 @@ def _make_classes():
     from black_it.samplers.base import BaseSampler
 
     out = []
-    for name in "ABCDEF":
+    for name in TOK_LETTERS:
+        if name == "?":
+            out.append(None)
+            continue
+
         def __init__(self, uid, bs, random_state=None, rows=None):
             BaseSampler.__init__(self, bs, random_state, max_deduplication_passes=0)
             self.tok_uid, self.tok_calls, self.tok_rows, self.seen = uid, 0, rows, []
@@ -114,7 +126,7 @@ def class_id(obj):
     n = type(obj).__name__
     if n == "HaltonSampler":
         return HALTON_CLASS
-    return "ABCDEF".index(n[3])
+    return TOK_LETTERS.index(n[3])
 
 
 def make_sampler(spec):
@@ -218,7 +230,7 @@ def core_view(cal):
         "losses": [float(x) for x in cal.losses_samp],
         "series": [[(int(m[0, 0]), int(m[1, 0])) for m in row] for row in cal.series_samp],
         "bnums": [int(x) for x in cal.batch_num_samp], "methods": [int(x) for x in cal.method_samp],
-        "table": [("ABCDEF".index(k[3]) if k.startswith("Tok") else HALTON_CLASS, int(v)) for k, v in cal.samplers_id_table.items()],
+        "table": [(tok_class_index(k), int(v)) for k, v in cal.samplers_id_table.items()],
         "kind": 0 if is_rr else 1, "counter": int(getattr(sch, "_batch_id", 0)),
         "samplers": sampler_views(sch.samplers),
         "stopped": bool(getattr(sch, "_stopped", True)), "alive": bool(th is not None and th.is_alive()),
@@ -339,7 +351,7 @@ def plot_table(folder):
         from black_it.plot import plot_results
 
         t = plot_results._get_samplers_id_table(str(folder))  # noqa: SLF001
-        return [("ABCDEF".index(k[3]) if k.startswith("Tok") else HALTON_CLASS, int(v)) for k, v in t.items()]
+        return [(tok_class_index(k), int(v)) for k, v in t.items()]
     except Exception as e:  # noqa: BLE001
         return f"{type(e).__name__}: {e}"
 
